@@ -24,7 +24,7 @@ def run(rep, tier):
     for f in FACT:
         jobs.append(l1.Job(f, ctext, "h_" + f, enforce=f, replace=["su_make_aligned", "ComponentsFromMatrices", "su_dtor"], loops=(f != "Generator"),
                            includes=INC, timeout=600, where="src/SUNalg.cpp " + f, function_label="SU_vector::" + f))
-    jobs.append(l1.Job("make_aligned", ctext, "h_su_make_aligned", enforce="su_make_aligned", replace=["su_ctor_default", "su_alloc_aligned", "sq_filln"],
+    jobs.append(l1.Job("make_aligned", ctext, "h_su_make_aligned", enforce="su_make_aligned", replace=["su_ctor_default", "su_alloc_aligned", "sq_filln", "su_dtor"],
                        includes=INC, timeout=600, where="src/SUNalg.cpp make_aligned", function_label="SU_vector::make_aligned"))
     jobs.append(l1.Job("dtor", ctext, "h_su_dtor", enforce="su_dtor", replace=["su_deallocate_mem"],
                        includes=INC, timeout=300, where="include/SQuIDS/SUNalg.h ~SU_vector", function_label="SU_vector::~SU_vector()"))
